@@ -277,6 +277,19 @@ func getAsync(c *Ctx) {
 			}
 		}
 		g.add("GOX", "the answer is sent exactly once into a buffered channel", ok, pickS(ok, "one send, after WaitCond, on make(chan, 1)", "the sender can block forever or answer twice (the answer channel must be buffered and sent once)"), sends[0])
+		// ... on every path, and the channel is never closed: the receiver reads exactly one answer, never the zero value
+		// of a closed channel (which it would take for "value nil, no error")
+		always := !P.PathExists(g.fn, nil, an.IsReturn, an.Is(sends[0]), nil)
+		closes := an.AllInstrs(g.fn, func(in ssa.Instruction) bool {
+			cc := an.CallCommonOf(in)
+			if cc == nil {
+				return false
+			}
+			b, isB := cc.Value.(*ssa.Builtin)
+			return isB && b.Name() == "close"
+		})
+		g.add("GOX", "a blocked Get is always answered by the waiter's own send", always && len(closes) == 0,
+			pickS(always && len(closes) == 0, "no return of the waiter without the send; the answer channel is never closed", "the waiter can finish without sending (or closes the answer channel): the blocked Get would hang, or read a zero answer and return a value nobody put"), sends[0])
 	}
 }
 
@@ -304,6 +317,10 @@ func init() {
 					return true
 				}
 				if ruleIn(o, "G") && funcHas(o, "(*Buffer).get", "(*Buffer).getAsync") {
+					return true
+				}
+				// the position handed to the waiter stays valid until the delta is advanced: one hold of the consumer mutex
+				if ruleIn(o, "AT") && funcHas(o, "(*consumer).Get") {
 					return true
 				}
 				// a lock-order cycle between the consumer and buffer locks pins Buffer.mutex: the watcher, Put and Close
